@@ -61,6 +61,9 @@ GROUPS = {
   "TwoWayNew": [
     ("src/arch/all/twoway.rs", r"impl Finder \{", "Finder", ["new"]),
     ("src/arch/all/twoway.rs", r"impl FinderRev \{", "FinderRev", ["new"])],
+  "IterNext": [
+    ("src/memmem/mod.rs", r"impl<'h, 'n> Iterator for FindIter<'h, 'n> \{", "FindIter", ["next"]),
+    ("src/memmem/mod.rs", r"impl<'h, 'n> Iterator for FindRevIter<'h, 'n> \{", "FindRevIter", ["next"])],
   "IterHint": [
     ("src/memmem/mod.rs", r"impl<'h, 'n> Iterator for FindIter<'h, 'n> \{", "FindIter", ["size_hint"]),
     ("src/arch/generic/memchr.rs", r"impl<'h> Iter<'h> \{", "Iter", ["size_hint"])],
@@ -73,6 +76,14 @@ VIEWS = {
     "FindIter": ("src/memmem/mod.rs", [("haystack", "&[u8]"), ("pos", "usize"), ("needle", "&[u8]")],
                  {"self.finder.needle()": "needle"}, ["haystack", "pos", "finder"]),
     "Iter": ("src/arch/generic/memchr.rs", [("start", "usize"), ("end", "usize")], {}, ["start", "end"]),
+    "FindRevIter": ("src/memmem/mod.rs", [("haystack", "&[u8]"), ("pos", "Option<usize>")], {}, ["haystack", "pos", "finder"]),
+}
+# Oracles: calls of code that is NOT translated (the searchers themselves) become function parameters of the
+# generated definition; the tie lemma quantifies over every oracle that agrees with the model's search.
+# (container, fn) -> {rendered receiver + "." + method: (parameter name, [indices of the arguments passed on], result type)}
+ORACLES = {
+    ("FindIter", "next"): {"self.finder.searcher.find": ("o_find", [1], "Option<usize>")},
+    ("FindRevIter", "next"): {"self.finder.rfind": ("o_rfind", [0], "Option<usize>")},
 }
 
 # structs whose definitions are read from the source: name -> file
@@ -85,6 +96,7 @@ STRUCTS = {
     "Pair": {"Pair": "src/arch/all/packedpair/mod.rs"},
     "Searcher": {},
     "IterHint": {},
+    "IterNext": {},
     "Shift": {},
     "Suffix": {"Suffix": "src/arch/all/twoway.rs"},
     "TwoWayNew": {"TwoWay": "src/arch/all/twoway.rs", "Finder": "src/arch/all/twoway.rs", "FinderRev": "src/arch/all/twoway.rs"},
@@ -94,7 +106,7 @@ GROUP_IMPORTS = {"TwoWayNew": ["ByteSet", "Suffix", "Shift"]}
 # enums read from the source: group -> {name: file}
 ENUMS = {"Shift": {"Shift": "src/arch/all/twoway.rs"},
          "Suffix": {"SuffixKind": "src/arch/all/twoway.rs", "SuffixOrdering": "src/arch/all/twoway.rs"}}
-VIEW_GROUPS = {"IterHint": ["FindIter", "Iter"]}
+VIEW_GROUPS = {"IterHint": ["FindIter", "Iter"], "IterNext": ["FindIter", "FindRevIter"]}
 # type hints for locals whose type Rust infers backwards
 LOCAL_HINTS = {("ApproximateByteSet", "new", "bits"): "u64",
                ("Pair", "with_ranker", "index1"): "u8", ("Pair", "with_ranker", "index2"): "u8",
@@ -415,7 +427,11 @@ class P:
         self.eat("(")
         a = []
         while self.peek() != ")":
-            a.append(self.expr())
+            x_ = self.expr()
+            if self.peek() == "." and self.peek(1) == ".":
+                self.eat("."); self.eat(".")
+                x_ = ("rangefrom", x_)
+            a.append(x_)
             if not self.accept(","):
                 break
         self.eat(")")
@@ -435,6 +451,9 @@ class P:
                     e = ("field", e, name)
             elif self.peek() == "(" and e[0] == "path":
                 e = ("call", e[1], self.args())
+            elif self.peek() == "?":
+                self.eat("?")
+                e = ("try", e)
             elif self.peek() == "[":
                 self.eat("[")
                 lo = hi = None
@@ -573,6 +592,7 @@ class Tr:
         self.aliases = VIEWS[prefix][2] if prefix in VIEWS else {}
         self.enums = {}
         self.in_loop = False
+        self.oracles_used = {}
         self.nloops = 0
         self.uses_fuel = False
         self.aux = []
@@ -853,6 +873,12 @@ class Tr:
             rv = self.expr(recv[2][0], env)
             return self.bind(rv, lambda pv: R(
                 f"(if (N.leb {pv.text} (tmax {bits_of(to, w)})) then Ok {pv.text} else Panic UnwrapNone)", False, to))
+        orc = ORACLES.get((self.prefix, self.fn["name"]), {}).get(self.render(recv) + "." + name)
+        if orc:
+            oname, idxs, oty = orc
+            ras = [self.expr(args[i_], env) for i_ in idxs]
+            self.oracles_used[oname] = (len(idxs), oty)
+            return self.bind_all(ras, lambda pas: R(f"({oname}" + "".join(" " + a.text for a in pas) + ")", True, oty))
         al = self.aliases.get(self.render(e))
         if al:
             return self.expr(("field", ("path", ["self"]), al), env, want)
@@ -864,6 +890,9 @@ class Tr:
                 return self.bind(ra, lambda pa: R(f"({p.text} {pa.text})", True, "u8"))
             if p.ty == "&[u8]" and name == "len" and not args:
                 return R(f"(N.of_nat (length {p.text}))", True, "usize")
+            if p.ty == "&[u8]" and name == "get" and len(args) == 1 and args[0][0] == "rangefrom":
+                ra = self.expr(args[0][1], env, "usize")
+                return self.bind(ra, lambda pa: R(f"(slice_from_opt {p.text} {pa.text})", True, "Option<&[u8]>"))
             if p.ty == "&[u8]" and name == "split_at" and len(args) == 1:
                 ra = self.expr(args[0], env, "usize")
                 return self.bind(ra, lambda pa: R(f"(split_at_chk {p.text} {pa.text})", False, "(&[u8],&[u8])"))
@@ -883,6 +912,9 @@ class Tr:
                     ra = self.expr(args[0], env, p.ty)
                     t = "chk_add_opt {b} {a} {x}" if name == "checked_add" else "chk_sub_opt {a} {x}"
                     return self.bind(ra, lambda pa: R("(" + t.format(b=b, a=p.text, x=pa.text) + ")", True, f"Option<{p.ty}>"))
+                if name in ("max", "min") and len(args) == 1:
+                    ra = self.expr(args[0], env, p.ty)
+                    return self.bind(ra, lambda pa: R(f"(N.{name} {p.text} {pa.text})", True, p.ty))
                 if name == "as_usize" and not args and p.ty == "usize":
                     return R(p.text, True, "usize")
                 if name == "trailing_zeros" and not args:
@@ -1106,6 +1138,22 @@ class Tr:
                     outs[key] = (binder, r_.mon())
                 return R(f"(match {p.text} with Some{outs['Some'][0]} => {outs['Some'][1]} | None => {outs['None'][1]} end)", False, "ret")
             return self.bind(scr, fm)
+        if s[0] == "let" and s[3][0] == "try":
+            if self.in_loop:
+                raise TieBroken(f"{w}: `?` inside a loop")
+            if not self.fn["ret"].startswith("Option<"):
+                raise TieBroken(f"{w}: `?` in a function that does not return an Option")
+            r = self.expr(s[3][1], env)
+            def fq(p):
+                if not p.ty.startswith("Option<"):
+                    raise TieBroken(f"{w}: `?` on type {p.ty}")
+                v = self.fresh(s[1])
+                env2 = {k_: list(x) for k_, x in env.items()}
+                env2.setdefault(s[1], []).append((v, s[2] or p.ty[7:-1]))
+                r2 = cont(env2)
+                rn = self.finish(R("None", True, self.fn["ret"]), env)
+                return R(f"(match {p.text} with Some {v} =>\n  {r2.mon()} | None => {rn.mon()} end)", False, "ret")
+            return self.bind(r, fq)
         if s[0] == "let":
             hint = LOCAL_HINTS.get((self.prefix, self.fn["name"], s[1]))
             r = self.expr(s[3], env, s[2] or hint)
@@ -1149,6 +1197,10 @@ class Tr:
                 raise TieBroken(f"{w}: tail expression not at the end")
             if s[1][0] == "if" and self.has_effects(s[1]):
                 return self.if_stmt(s[1], env, k)
+            if s[1][0] == "match" and self.match_has_effects(s[1]) and not self.in_loop:
+                scr = self.expr(s[1][1], env)
+                if scr.ty.startswith("Option<"):
+                    return self.opt_match_tail(s[1], scr, env)
             if s[1][0] == "match" and self.match_has_effects(s[1]):
                 return self.match_stmt(s[1], env, k)
             if self.in_loop:
@@ -1223,6 +1275,32 @@ class Tr:
                                   lambda env_after: cont(self.scope_exit(env, env_after)))
             return self.enum_match(p, e[2], env, None, tr_body)
         return self.bind(r, f)
+
+    def opt_match_tail(self, e, scr, env):
+        """the function's tail expression: match on an Option whose arms are values or blocks with assignments"""
+        w = self.what
+        def f(p):
+            inner = p.ty[7:-1]
+            outs = {}
+            for pat, body in e[2]:
+                env2 = {k_: list(x) for k_, x in env.items()}
+                if pat == ("pvar", "None"):
+                    key, binder = "None", ""
+                elif pat[0] == "pctor" and pat[1] == "Some":
+                    v = self.fresh(pat[2])
+                    env2.setdefault(pat[2], []).append((v, inner))
+                    key, binder = "Some", " " + v
+                else:
+                    raise TieBroken(f"{w}: unsupported Option pattern")
+                if body[0] == "block":
+                    r_ = self.stmts(body[1], env2, lambda e3: self.finish(R("tt", True, "()"), e3))
+                else:
+                    r_ = self.bind(self.expr(body, env2, self.fn["ret"]), lambda pv, env2=env2: self.finish(pv, env2))
+                outs[key] = (binder, r_.mon())
+            if set(outs) != {"Some", "None"}:
+                raise TieBroken(f"{w}: match on an Option must have the arms None and Some(x)")
+            return R(f"(match {p.text} with Some{outs['Some'][0]} => {outs['Some'][1]} | None => {outs['None'][1]} end)", False, "ret")
+        return self.bind(scr, f)
 
     def assigned_vars(self, ss):
         out = []
@@ -1473,7 +1551,7 @@ def coq_type(ty, structs, what):
         return "unit"
     if ty in structs:
         return ty
-    if ty == "&[u8]":
+    if ty in ("&[u8]", "[u8]"):
         return "(list N)"
     if ty.startswith("Option<") and ty.endswith(">"):
         return f"(option {coq_type(ty[7:-1], structs, what)})"
@@ -1626,6 +1704,8 @@ def translate(repo, group, _emit=True):
         name = f"rs_{prefix}_{fn['name']}"
         btxt = body.mon()
         fn["uses_fuel"] = tr.uses_fuel
+        for oname, (nargs, oty) in sorted(tr.oracles_used.items(), reverse=True):
+            binders.insert(0, f"({oname} : " + " -> ".join(["list N"] * nargs) + f" -> {coq_type(oty, structs, what)})")
         if tr.uses_fuel:
             binders.insert(0, "(fuel : nat)")
         for a_ in tr.aux:
